@@ -20,6 +20,7 @@ impl<K: KeyV, V> HashMap<K, V> {
     #[verifier::external_body] pub fn get<Q: KeyV<KV = K::KV> + ?Sized>(&self, k: &Q) -> (r: Option<&V>)
         ensures match r { Some(v) => self@.dom().contains(k.kv()) && *v == self@[k.kv()], None => !self@.dom().contains(k.kv()) } { unimplemented!() }
     #[verifier::external_body] pub fn contains_key<Q: KeyV<KV = K::KV> + ?Sized>(&self, k: &Q) -> (r: bool) ensures r == self@.dom().contains(k.kv()) { unimplemented!() }
+    #[verifier::external_body] pub fn is_empty(&self) -> (r: bool) ensures r == (self@.dom() =~= Set::<K::KV>::empty()) { unimplemented!() }
     // R12 target for `for (k, v) in map` (by value): every entry exactly once, in an unspecified order
     #[verifier::external_body] pub fn into_vec(self) -> (r: Vec<(K, V)>)
         ensures
